@@ -4,7 +4,7 @@ from pyvc.dsl import REG, contract
 P = ["C01"]
 
 
-@contract("pyanalyze.implementation._sequence_common_getitem_impl.inner", props=P)
+@contract("pyanalyze.implementation._sequence_common_getitem_impl.inner", props=P + ["C19"])
 def _(c):
     c.free_vars += ["ctx", "typ"]
     c.param("ctx", "val"); c.param("typ", "val")
